@@ -557,7 +557,7 @@ func vh_StateCrash() {
 	for i := 0; i < nsets; i++ {
 		terms[i] = vNondetU64("set.term")
 		votes[i] = vNondetStr("set.vote", ids...)
-		vAssume(vOr(terms[i] >= 1, votes[i] != "")) // SetState(0, "") is never issued by a node
+		// (0, "") included: its record has an empty payload (proto3 default values encode to zero bytes)
 	}
 	root := vStorageRoot()
 	done := 0
